@@ -383,7 +383,7 @@ func (c *Ctx) checkTraces(s *State, env *Env, fc *FuncContract, trace []Event, l
 		// a rule about calls of a function whose contract found no function in this tree cannot be decided
 		detached := ""
 		for k, ofc := range c.eng.contracts.funcs {
-			if ofc.Detached && strings.Contains(tr.Src, shortName(k)) {
+			if ofc.Detached && ofc.DetachedAmbiguous && strings.Contains(tr.Src, shortName(k)) {
 				detached = k
 			}
 		}
